@@ -169,10 +169,12 @@ def harness(cfg, ns):
         ctx.notes["inputs"] = [s0, e0, s1, e1]
         rz = lambda m: dict(kind="csvzero", discard=cfg["discard"], rows=[["a", "x", common.frs(mval(m, s0)), common.frs(mval(m, e0))],     # noqa: E731
                                                                           ["a", "y", common.frs(mval(m, s1)), common.frs(mval(m, e1))],
-                                                                          ["b", "x", common.frs(mval(m, s0)), common.frs(mval(m, e0))]])
+                                                                          ["b", "x", common.frs(mval(m, s0)), common.frs(mval(m, e0))],
+                                                                          ["c", "x", common.frs(mval(m, s1)), common.frs(mval(m, e1))]])
         ctx.notes["realize"] = rz
         ch = Channel()
-        ch.files["/virtual/in.csv"] = [["a", "x", s0, e0], ["a", "y", s1, e1], ["b", "x", s0, e0]]
+        # the zero-length rows carry a label ('y') and an annotator ('c') that no valid row has: a discarded row leaves no trace
+        ch.files["/virtual/in.csv"] = [["a", "x", s0, e0], ["a", "y", s1, e1], ["b", "x", s0, e0], ["c", "x", s1, e1]]
         undo = install_csv(ch)
         saved_print = co.__dict__.get("print")
         co.print = lambda *a, **k: None
@@ -365,8 +367,13 @@ def replay(case):
                 back = pa.Continuum.from_csv(p, discard_invalid_rows=case["discard"])
                 if not case["discard"]:
                     bad.append("zero-length row accepted although discard_invalid_rows=False")
-                elif back.num_units != 2:
-                    bad.append(f"{back.num_units} units read, 2 valid rows")
+                else:
+                    valid = [r for r in case["rows"] if F(r[3]) - F(r[2]) > 1e-6]
+                    want_a, want_c = sorted({r[0] for r in valid}), sorted({r[1] for r in valid})
+                    if back.num_units != len(valid):
+                        bad.append(f"{back.num_units} units read, {len(valid)} valid rows")
+                    if list(back.annotators) != want_a or list(back.categories) != want_c:
+                        bad.append(f"discarded rows left a trace: annotators {list(back.annotators)} (valid rows: {want_a}), categories {list(back.categories)} (valid rows: {want_c})")
             except ValueError:
                 if case["discard"]:
                     bad.append("zero-length row raised although discard_invalid_rows=True")
